@@ -53,6 +53,9 @@ func (c *badRegexpChecker) VisitExpr(x ast.Expr) {
 
 	switch qualifiedName(call.Fun) {
 	case "regexp.Compile", "regexp.MustCompile":
+		if len(call.Args) == 0 {
+			return
+		}
 		cv := c.ctx.TypesInfo.Types[call.Args[0]].Value
 		if cv == nil || cv.Kind() != constant.String {
 			return
